@@ -20,7 +20,8 @@ EXPLANATION = (
     " ROUNDS 5-6: R9 a builtin that expands directly to a literal gives it the type the typer announced (line!: usize; file!: announced as slice, expanded to an array -- known finding)."
     " ROUND 7: R2 linkage and calling convention are tables over the sixteen flag sets, folded from the arguments of LLVMSetLinkage / LLVMSetFunctionCallConv (rules/flagfn.py), whatever the form of the code that chooses them."
     " ROUND 8: R10-LINK-RESULT-CHECKED 'default diagnostic handler' (shared with C02): while the status of LLVMLinkModules2 is discarded (known finding) the default handler, which ends the process on a link error, must stay in place."
-    " ROUND 9: R11-BRANCH-TARGETS-FRESH: no LLVMBuildBr / LLVMBuildCondBr targets a block obtained from LLVMGetInsertBlock (it may be the entry block, which must not have predecessors); C01.R3-CAST-ALWAYS-CONVERTED is shared (an unconverted cast operand is a constant of the wrong type inside an aggregate, which only llvm-as notices); R2-LINKAGE-TABLE 'local functions reach the linked program': known finding (LLVMLinkModules2 drops unreferenced local symbols).")
+    " ROUND 9: R11-BRANCH-TARGETS-FRESH: no LLVMBuildBr / LLVMBuildCondBr targets a block obtained from LLVMGetInsertBlock (it may be the entry block, which must not have predecessors); C01.R3-CAST-ALWAYS-CONVERTED is shared (an unconverted cast operand is a constant of the wrong type inside an aggregate, which only llvm-as notices); R2-LINKAGE-TABLE 'local functions reach the linked program': known finding (LLVMLinkModules2 drops unreferenced local symbols)."
+    " ROUND 10: R12-LINKAGE-SET-AT-CREATION: every LLVMSetLinkage / LLVMSetVisibility / LLVMSetFunctionCallConv acts on a value produced by LLVMAddFunction / LLVMAddGlobal in the same function (no pass over a finished module changes what declare decided).")
 
 GEN = "alpha::generator::Generator"
 
@@ -382,7 +383,22 @@ def r12_linkage_set_at_creation(run, F):
             if name not in ("LLVMSetLinkage", "LLVMSetVisibility", "LLVMSetFunctionCallConv", "LLVMSetDLLStorageClass"):
                 continue
             n += 1
-            prod = sorted(str(k[1]).split("::")[-1] if k[0] == "call" else str(k) for k in origins.producers(b["hir"], c["a"][0], b.get("params", ())))
+            raw = origins.producers(b["hir"], c["a"][0], b.get("params", ()))
+            prod = set()
+            for k in raw:
+                if k[0] == "param":
+                    # a helper that is handed the value: what its callers hand it decides (one level)
+                    idx = [i for i, q in enumerate(b.get("params", [])) if (q.get("pat", q).get("name") or q.get("name")) == k[1]]
+                    sites = [cc for pp, bb in F.lib.bodies.items() if "hir" in bb for cc in hirq.calls(bb["hir"]) if hirq.callee(cc) == p] if idx else []
+                    if not sites:
+                        prod.add(str(k))
+                    for cc in sites:
+                        owner = [bb for pp, bb in F.lib.bodies.items() if "hir" in bb and any(x is cc for x in hirq.calls(bb["hir"]))][0]
+                        for kk in origins.producers(owner["hir"], cc["a"][idx[0]], owner.get("params", ())):
+                            prod.add(str(kk[1]).split("::")[-1] if kk[0] == "call" else str(kk))
+                else:
+                    prod.add(str(k[1]).split("::")[-1] if k[0] == "call" else str(k))
+            prod = sorted(prod)
             ok = bool(prod) and all(x in ("LLVMAddFunction", "LLVMAddGlobal", "LLVMAddGlobalInAddressSpace") for x in prod)
             run.ob("R12-LINKAGE-SET-AT-CREATION", "%s|%s (order %d)" % (p.split("::")[-1], name, n), ok, F.where(b, c),
                    "%s is applied to a value produced by %s: linkage and calling convention are set where a function or global is created, from its flags" % (name, prod))
